@@ -57,7 +57,7 @@ def replay_one(item) -> dict:
     if with_others and scn["shared"]:
         aggs = other_aggregators(len(scn["losses"]), torch.float64)
         agg = aggs[idx % len(aggs)]
-        run = MtlRun(scn, rng, dtype=torch.float64, aggregator=agg)
+        run = MtlRun(scn, rng, dtype=torch.float64, aggregator=agg, hook_scale=(2.0 if idx % 2 else None))
         stats["runs"] += 1
         if run.exc is not None:
             stats["agg_raised"] += 1
